@@ -54,12 +54,12 @@ def run_unphase(vcf_path, outfile):
             for tag in TAGS_TO_REMOVE:
                 if tag in record.format:
                     del record.format[tag]
+            if "GT" not in record.format:
+                writer.write(record)
+                continue
             for call in record.samples.values():
-                if (
-                    call["GT"] is not None
-                    and call["GT"][0] is not None
-                    and call["GT"][1] is not None
-                ):
+                # Genotypes of any ploidy are sorted; those with a missing allele are left as is
+                if call["GT"] is not None and all(allele is not None for allele in call["GT"]):
                     call["GT"] = sorted(call["GT"])
                 call.phased = False
             writer.write(record)
